@@ -38,7 +38,7 @@ use common::*;
 /// All sub-checks of a property for a tier.
 fn checks_for(property: &str, tier: Tier) -> Vec<Box<dyn Check>> {
     match property {
-        | "C01" => vec![Box::new(c02::Universe::new(c02::Mode::Safety, tier)), Box::new(c03::Mutants::new(true, tier)), Box::new(poly::PolyUniverse::new("C01", tier))],
+        | "C01" => vec![Box::new(c02::Universe::new(c02::Mode::Safety, tier)), Box::new(c03::Mutants::new(true, tier)), Box::new(poly::PolyUniverse::new("C01", tier)), Box::new(c03::Holes::new())],
         | "C02" => vec![Box::new(c02::Universe::new(c02::Mode::Agreement, tier)), Box::new(poly::PolyUniverse::new("C02", tier))],
         | "C03" => vec![Box::new(c02::Universe::new(c02::Mode::Acceptance, tier)), Box::new(c03::Mutants::new(false, tier)), Box::new(poly::PolyUniverse::new("C03", tier)), Box::new(poly::PolyMatrix::new(tier))],
         | "C04" => c04::checks(tier),
@@ -121,6 +121,14 @@ fn real_main() {
             if s.verdict().accepted() {
                 let r = s.run(b"", &[], 100000);
                 println!("run: {:?}", r);
+            }
+        }
+        | Some("fmtcount") => {
+            for tier in [Tier::Quick, Tier::Thorough] {
+                let t = std::time::Instant::now();
+                let f = c12::Fmt::new(c12::Mode::Meaning, tier);
+                let g = c12::Fmt::new(c12::Mode::Text, tier);
+                println!("{:?}: meaning/idempotence cases {}, text cases {} ({:.1}s)", tier, Check::len(&f), Check::len(&g), t.elapsed().as_secs_f64());
             }
         }
         | Some("polyrun") => {
